@@ -245,7 +245,8 @@ EvDiag(e) ==
   /\ UNCHANGED <<pool, from, contig, enc, memo, prog>> /\ KeepStream
 
 (* credentials replaced by [empty?, length] *)
-Redact(o) == [o EXCEPT !["Username"] = <<Len(@)>>, !["Password"] = <<Len(@)>>]
+Redact(o) == [o EXCEPT !["Username"] = <<Len(@)>>, !["Password"] = <<Len(@)>>,
+                        !["Will"] = IF @.has THEN [has |-> TRUE, val |-> @.val] ELSE [has |-> FALSE]]   \* (not which handle it is)
 
 EvCmpDiag(e) ==
   LET a == e.hs[1]  b == e.hs[2] IN
